@@ -622,7 +622,15 @@ func runC17(r *Run) {
 		retention = []time.Duration{10 * time.Second, 30 * time.Second, 90 * time.Second}[rg.Intn(3)]
 	}
 	wl := newW2(r, "c17", w2Opts{sessions: true, indexes: true, sequences: true, bigRanges: true, restarts: true,
-		cfgMod: func(c *server.Config) { c.NotificationsRetentionTime = retention }})
+		cfgMod: func(c *server.Config) { c.NotificationsRetentionTime = retention },
+		netMod: func(nc *NetConfig) {
+			// a stream Send that returns late: writes commit while a subscriber's first batch is on its way
+			if lg := NewRng(r.Seed, "c17-late-send"); lg.Chance(60) {
+				nc.LateSendPct = lg.Range(10, 60)
+				nc.LateSendMax = time.Duration(lg.Range(500, 8000)) * time.Microsecond
+			}
+			r.Knobs["late_send"] = fmt.Sprintf("%d%%/%v", nc.LateSendPct, nc.LateSendMax)
+		}})
 	defer wl.w.Close()
 	wl.notifRetention = retention
 	r.Knobs["notif_retention"] = retention.String()
@@ -648,10 +656,37 @@ func runC17(r *Run) {
 			gi := NewRng(r.Seed, "c17op", i)
 			k := gi.Intn(100)
 			switch {
-			case k < 10: // subscribe from "now"
+			case k < 6: // subscribe from "now"
 				nextID++
 				subs = append(subs, wl.subscribeNotifs(nextID, nil))
 				wl.prog = append(wl.prog, "subscribe-now")
+				time.Sleep(50 * time.Millisecond)
+			case k < 10: // subscribe from "now" while a burst of writes is committing
+				nw := gi.Range(2, 6)
+				burstDone := make(chan error, 1)
+				wl.c.ctl.Go(func() {
+					var first error
+					for j := 0; j < nw; j++ {
+						_, err := wl.c.write(&proto.WriteRequest{Puts: []*proto.PutRequest{{Key: c12Keys[(i+j)%len(c12Keys)], Value: []byte(fmt.Sprintf("burst-%d-%d", i, j))}}})
+						if err != nil && first == nil {
+							first = err
+						}
+					}
+					burstDone <- first
+				})
+				time.Sleep(time.Duration(gi.Range(0, 3000)) * time.Microsecond)
+				nextID++
+				subs = append(subs, wl.subscribeNotifs(nextID, nil))
+				if err := <-burstDone; err != nil {
+					wl.fail("write-error", "write in a burst failed: %v", err)
+					return
+				}
+				if _, _, err := wl.c.foldNew(); err != nil {
+					wl.fail("log-missing", "fold after a burst: %v", err)
+					return
+				}
+				wl.prog = append(wl.prog, fmt.Sprintf("subscribe-now during a burst of %d writes", nw))
+				r.Count("subscriptions_opened_during_writes", 1)
 				time.Sleep(50 * time.Millisecond)
 			case k < 18: // subscribe from an explicit offset
 				if _, _, err := wl.c.foldNew(); err == nil && wl.c.model.CommitOffset >= 0 {
